@@ -53,10 +53,10 @@ META = dict(
               "extracted-model/specification/implementation differential correspondence + real build replays",
     design_ref="DESIGN.md section 5, C06")
 
-SOURCES = [
+SOURCES = ["k0"] + [
     "@kernel void k(int *out) {\n  for (int i = 0; i < 1; ++i; @tile(1, @outer, @inner)) {\n    out[0] = %d;\n  }\n}\n" % n
-    for n in (1, 2, 3)
-] + ["host"]  # the last one violates domain separation on purpose (rare)
+    for n in (2, 3)
+] + ["host"]  # "k0" is the drivers' default text; the last one violates domain separation on purpose (rare)
 
 STR = ['"-O2"', '"-O1"', '"-g"', '"g++"', '"gcc"', '""', '"cpp"', '"c"', '"-DX=1"', '"2.0.0"', '"host"', '"Serial"',
        '"OpenMP"', '"disabled"', '"/opt/a"', '"-O2 -g"', '"a\\"b"', '"openmp device::kernelHash"']
@@ -143,7 +143,7 @@ class Gen:
             other = self.base()
             toks = ["1%s=%s" % (p, enc(v)) for p, v in base.items()] + ["2%s=%s" % (p, enc(v)) for p, v in other.items()]
             m2 = rng.choice("SO")
-        toks += ["x1=" + enc(SOURCES[s1]), "x2=" + enc(SOURCES[s2])]
+        toks += ["x%d=%s" % (i, enc(SOURCES[s])) for i, s in ((1, s1), (2, s2)) if s != 0]
         return " ".join([m1, m2] + toks)
 
 
@@ -301,7 +301,7 @@ def run(run, tier, seed, replay_case=None):
         else:
             rng = random.Random(seed * 7919 + 6)
             g = Gen(rng)
-            n = 3000 if tier == "quick" else 40000
+            n = 2000 if tier == "quick" else 40000
             cases = C.load_corpus(PROP) + [g.pair() for _ in range(n)]
         I, R, S = d.eval(cases)
         if replay_case is not None:
